@@ -254,6 +254,22 @@ struct OpSpec {
 }
 
 /// Executes one operation on the real crate, records it, runs the per-call monitors.
+/// the entries a map's Debug output shows, sorted ("{k: v, k: v}" with K and V printing numbers)
+fn debug_pairs(m: &Map) -> Vec<(u64, u64)> {
+    let t = format!("{:?}", m);
+    let inner = t.trim().trim_start_matches('{').trim_end_matches('}');
+    let mut v: Vec<(u64, u64)> = inner
+        .split(", ")
+        .filter(|x| !x.is_empty())
+        .filter_map(|e| {
+            let mut p = e.split(": ");
+            Some((p.next()?.trim().parse().ok()?, p.next()?.trim().parse().ok()?))
+        })
+        .collect();
+    v.sort();
+    v
+}
+
 /// the state the previous call left (the reference is up to date by now), seen through every
 /// read-only view: used when a proof or the correspondence broke and a failing input is sought
 fn probe_views(cx: &mut Ctx) {
@@ -278,8 +294,9 @@ fn probe_views(cx: &mut Ctx) {
         vs.sort();
         let mut vs2: Vec<u64> = it.iter().map(|x| x.1).collect();
         vs2.sort();
-        let dbg = format!("{:?}", m).matches(": ").count();
-        if it.len() != m.len() || m.iter().len() != m.len() || ks != it.iter().map(|x| x.0).collect::<Vec<_>>() || vs != vs2 || dbg != m.len() || (m == m) != true {
+        let dbgp = debug_pairs(m);
+        let dbg = dbgp.len();
+        if it.len() != m.len() || m.iter().len() != m.len() || ks != it.iter().map(|x| x.0).collect::<Vec<_>>() || vs != vs2 || dbgp != it || (m == m) != true {
             vio(&prop, format!("slot {} after the previous call: len() {}, iter() yields {}, keys() {}, values() {}, Debug shows {} entries", s, m.len(), it.len(), ks.len(), vs.len(), dbg));
         }
     }
@@ -553,6 +570,9 @@ fn run_op(cx: &mut Ctx, spec: OpSpec, body: impl FnOnce(&mut Ctx) -> Out) -> Out
                 // promises insertions that need another allocation
                 if m.capacity() > st.main_cap {
                     vio("C04", format!("capacity() {} but the main table can hold {} (len {}, {} still in the old table) after [{}]", m.capacity(), st.main_cap, m.len(), st.old.map_or(0, |o| o.0), spec.toks));
+                }
+                if m.is_empty() != (m.len() == 0) {
+                    vio("C01", format!("is_empty() is {} but len() is {} after [{}]", m.is_empty(), m.len(), spec.toks));
                 }
                 if m.len() != st.main_len + st.old.map_or(0, |o| o.0) {
                     vio("C01", format!("len() {} != {} + {}", m.len(), st.main_len, st.old.map_or(0, |o| o.0)));
@@ -1604,8 +1624,9 @@ fn op_eq_with(cx: &mut Ctx, a: usize, b: usize, pool: Option<usize>) -> Out {
                 let mut it: Vec<(u64, u64)> = m.iter().map(|(k, v)| (k.class, v.get())).collect();
                 it.sort();
                 let by_get: Vec<(u64, u64)> = it.iter().filter_map(|(k, _)| m.get(&K::new(*k, 0)).map(|v| (*k, v.get()))).collect();
-                if it.len() != m.len() || by_get != it || format!("{:?}", m).matches(": ").count() != m.len() {
-                    vio("C14", format!("slot {}: len() {}, iter() yields {} entries, {} of them found by get, Debug shows {}", s, m.len(), it.len(), by_get.len(), format!("{:?}", m).matches(": ").count()));
+                let dbg = debug_pairs(m);
+                if it.len() != m.len() || by_get != it || dbg != it {
+                    vio("C14", format!("slot {}: len() {}, iter() yields {} entries, {} of them found by get, Debug shows {} entries (or other ones)", s, m.len(), it.len(), by_get.len(), dbg.len()));
                 }
             }
         }
